@@ -39,6 +39,7 @@ var c05ExprPool = []string{
 var c05TmplPool = []string{
 	"x{{a}}y", "{{#a}}in{{/a}}", "{{#a}}open", "{{a", "{{{a}}}", "{{a}}}", "{{{a}}", "", "plain", "{{! c }}", "{{^b}}no{{/b}}", "{{#if a}}yes{{/if}}", "{{#unless a}}no{{/unless}}", "}}", "{{", "a{{b",
 	"{{/a}}", "{{#a}}{{/b}}", "{{a}}{{B}}{{a}}", "{{ a }} {{ b }}", "Hello, {{Name}}!", "{{#a}}{{#b}}x{{/b}}{{/a}}", "{{#a}}{{b}}", "{{a b}}", "{{}}", "{{😀}}", "t{{a}}😀", "{{a}}\n{{b}}\n", "{{! 'q }}", "'{{a}}'",
+	"{{#unless a", "{{#if a", "{{#unless a}}x", "{{^a}}no{{/a}}", "{{#a}}yes{{/a}}", "{{^if a}}x", "{{#unless", "{{/unless}}", "{{#B}}b{{/B}}{{^B}}nb{{/B}}",
 }
 
 func obsTokens(t tokenizers.ITokenizer, input string) string {
@@ -147,6 +148,9 @@ func (in *c05Instance) observe(input string, abort int) (out string) {
 			}
 			out = obsTokens(in.tok, input)
 		case in.ep != nil:
+			if abort == 10 {
+				in.ep.Clear()
+			}
 			err := in.ep.ParseString(input)
 			out = fmt.Sprintf("err=%s program=%v vars=%q", errCode(err), gotProgram(in.ep.ResultTokens()), in.ep.VariableNames())
 			if err != nil {
@@ -207,6 +211,9 @@ func (in *c05Instance) observe(input string, abort int) (out string) {
 			r, err = in.ec.EvaluateUsingVariables(c05Env.collection())
 			out = fmt.Sprintf("tokens: program=%v value=%v evalerr=%v", gotProgram(in.ec.ResultTokens()), snap(r), err)
 		case in.ec != nil:
+			if abort == 10 {
+				in.ec.Clear()
+			}
 			err := in.ec.SetExpression(input)
 			if err != nil {
 				out = "err=" + errCode(err) + ": " + err.Error()
@@ -216,6 +223,9 @@ func (in *c05Instance) observe(input string, abort int) (out string) {
 			r, err = in.ec.EvaluateUsingVariables(c05Env.collection())
 			out = fmt.Sprintf("program=%v value=%v evalerr=%v", gotProgram(in.ec.ResultTokens()), snap(r), err)
 		case in.mp != nil:
+			if abort == 10 {
+				in.mp.Clear()
+			}
 			err := in.mp.ParseString(input)
 			if err != nil {
 				out = "err=" + errCode(err) + ": " + err.Error()
@@ -223,6 +233,9 @@ func (in *c05Instance) observe(input string, abort int) (out string) {
 			}
 			out = fmt.Sprintf("tokens=%s vars=%q", mtoks(in.mp.ResultTokens()), in.mp.VariableNames())
 		case in.mt != nil:
+			if abort == 10 {
+				in.mt.Clear()
+			}
 			err := in.mt.SetTemplate(input)
 			if err != nil {
 				out = "err=" + errCode(err) + ": " + err.Error()
@@ -366,7 +379,7 @@ func buildC05(cfg *mon.Config) []*mon.Sub {
 	}
 	var subs []*mon.Sub
 	pairs := &mon.Sub{
-		Name: "all-ordered-pairs", Rule: fmt.Sprintf("all ordered pairs of the input pools (tokenizers: %d inputs containing every registered multi-character symbol alone and in context, every token class, unterminated literals and comments, push-back positions, the empty input; expressions: %d; templates: %d) on 12 components (4 tokenizers option-free, 4 with option sets, expression parser and calculator, mustache parser and template), for the option-free tokenizers also with the first input abandoned after 1, 2 or 3 plain NextToken calls and the second read through TokenizeBuffer / TokenizeStream, for the calculator also through the token API and with the default variables cleared or pruned by the caller in between; ", len(c05TokPool), len(c05ExprPool), len(c05TmplPool)) + rule,
+		Name: "all-ordered-pairs", Rule: fmt.Sprintf("all ordered pairs of the input pools (tokenizers: %d inputs containing every registered multi-character symbol alone and in context, every token class, unterminated literals and comments, push-back positions, the empty input; expressions: %d; templates: %d) on 12 components (4 tokenizers option-free, 4 with option sets, expression parser and calculator, mustache parser and template), for the option-free tokenizers also with the first input abandoned after 1, 2 or 3 plain NextToken calls and the second read through TokenizeBuffer / TokenizeStream, for the calculator also through the token API and with the default variables cleared or pruned by the caller in between, for parsers, calculators and templates also with Clear() called between the two inputs; ", len(c05TokPool), len(c05ExprPool), len(c05TmplPool)) + rule,
 		Exhaustive: true, DistinctByGen: true, Floor: 1000,
 		Gen: func(emit func(string)) {
 			for _, cp := range comps {
@@ -378,6 +391,10 @@ func buildC05(cfg *mon.Config) []*mon.Sub {
 							emit(cp.kind + "\x007:\x00" + a + "\x01" + b)
 							emit(cp.kind + "\x008;\x00" + a + "\x01" + b)
 							emit(cp.kind + "\x009:\x00" + a + "\x01" + b)
+						}
+						if !strings.HasPrefix(cp.kind, "tok:") {
+							// Clear() called between the two inputs
+							emit(cp.kind + "\x000:\x00" + a + "\x01" + b)
 						}
 						if cp.kind == "expression-calculator" {
 							// default variables cleared or pruned by the caller between the two expressions
@@ -421,6 +438,8 @@ func buildC05(cfg *mon.Config) []*mon.Sub {
 						ab[k] = byte('7' + r.Intn(5)) // 7..9 plain aborts, ':' TokenizeBuffer, ';' TokenizeStream
 					} else if cp.kind == "expression-calculator" && r.Chance(1, 4) {
 						ab[k] = byte('7' + r.Intn(3))
+					} else if !strings.HasPrefix(cp.kind, "tok:") && r.Chance(1, 6) {
+						ab[k] = ':' // Clear() first
 					} else if strings.HasPrefix(cp.kind, "tok:") && r.Chance(1, 8) {
 						ab[k] = '5'
 					} else if cp.kind == "expression-calculator" && r.Chance(1, 3) {
@@ -458,10 +477,10 @@ func buildC05(cfg *mon.Config) []*mon.Sub {
 		Exec: c05HasNextExec,
 	})
 	subs = append(subs, &mon.Sub{
-		Name: "function-collections-interleaved", Rule: "one compiled expression calling f and g is evaluated with function collections A, B, A, with the default functions (f missing: an error naming it), after adding f to the default functions, and after removing it again; every result must be the value computed from the collection actually passed (a per-instance cache keyed by name would show); enumerated over 6 expressions x 2 orders",
+		Name: "function-collections-interleaved", Rule: "one compiled expression calling f and g is evaluated with function collections A, B, A, with the default functions (f missing: an error naming it), after adding f to the default functions, and after removing it again; every result must be the value computed from the collection actually passed (a per-instance cache keyed by name would show); enumerated over 9 expressions (three of which fail under the explicit collections: division by zero, an unknown function, a selector out of range) x 2 orders",
 		Exhaustive: true, DistinctByGen: true, Floor: 5,
 		Gen: func(emit func(string)) {
-			for _, e := range []string{"f(2) + g(3)", "f(g(2))", "g(f(1), f(2))", "f(1) * 10 + f(2)", "Sum(f(1), g(1), 1)", "If(f(0) > g(0), f(5), g(5))"} {
+			for _, e := range []string{"f(2) + g(3)", "f(g(2))", "g(f(1), f(2))", "f(1) * 10 + f(2)", "Sum(f(1), g(1), 1)", "If(f(0) > g(0), f(5), g(5))", "f(1) / (g(0) * 0)", "g(3) + nosuch(f(1))", "Choose(f(-9), 1, 2) + g(1)"} {
 				emit("AB\x00" + e)
 				emit("BA\x00" + e)
 			}
@@ -497,6 +516,7 @@ func buildC05(cfg *mon.Config) []*mon.Sub {
 				return
 			}
 			steps := []byte{parts[0][0], parts[0][1], parts[0][0], 'D', '+', 'D', '-', 'D', parts[0][1]}
+			var addedF functions.IFunction
 			for i, st := range steps {
 				fresh := calculator.NewExpressionCalculator()
 				fresh.SetExpression(parts[1])
@@ -509,15 +529,15 @@ func buildC05(cfg *mon.Config) []*mon.Sub {
 						return variants.VariantFromInteger(-5), nil
 					})
 					used.DefaultFunctions().Add(f)
+					addedF = f
 					continue
 				case '-':
 					used.DefaultFunctions().RemoveByName("f")
+					addedF = nil
 					continue
 				case 'D':
-					for _, fn := range used.DefaultFunctions().GetAll() { // the fresh one gets the same default table
-						if fresh.DefaultFunctions().FindByName(fn.Name()) == nil {
-							fresh.DefaultFunctions().Add(fn)
-						}
+					if addedF != nil { // the fresh one gets the default table the caller has built so far: the 37 defaults plus what '+' added
+						fresh.DefaultFunctions().Add(addedF)
 					}
 					got, want = eval(used, nil), eval(fresh, nil)
 				}
